@@ -58,11 +58,14 @@ def expr(e):
     raise ValueError("cannot render expression kind %r" % k)
 
 
+EXTRA_PARENS = False      # C14: wrap every compound operand in one more (redundant) pair of parentheses
+
+
 def operand(e):
     s = expr(e)
     if e["k"] in ATOMIC and not (e["k"] == "int" and e["v"] < 0):
         return s
-    return "(" + s + ")"
+    return "((" + s + "))" if EXTRA_PARENS else "(" + s + ")"
 
 
 def params(ps):
